@@ -21,6 +21,20 @@ struct after { int clock; uint64_t deadline; _Atomic int runs; };
 struct tmr { dispatch_source_t ds; int clock; uint64_t start, interval; _Atomic long total; _Atomic int fires; _Atomic int cancelled; int replaced; uint64_t new_start; };
 int main(int argc,char**argv){ uint64_t seed=argc>1?strtoull(argv[1],0,0):1; int na=argc>2?atoi(argv[2]):200, nt=argc>3?atoi(argv[3]):40; rs=seed;
   dispatch_queue_t q=dispatch_queue_create("c11", DISPATCH_QUEUE_CONCURRENT);
+  // first, while the manager thread has nothing else to do: re-arming the earliest timer to an earlier time: it must follow the new settings (fire within a generous 5 s of a 150 ms start,
+  // not at the old start two minutes out) — alone in its heap, or with later timers below it
+  for(int c=0;c<3 && !viol;c++) for(int others=0; others<2 && !viol; others++){
+    dispatch_time_t base = c==0? DISPATCH_TIME_NOW : c==1? (1ull<<63) : DISPATCH_WALLTIME_NOW;
+    dispatch_source_t later[4]; for(int j=0;j<(others?4:0);j++){ later[j]=dispatch_source_create(DISPATCH_SOURCE_TYPE_TIMER,0,0,q); dispatch_source_set_event_handler(later[j],^{});
+      dispatch_source_set_timer(later[j],dispatch_time(base,(int64_t)(200+j)*1000000000ll),DISPATCH_TIME_FOREVER,0); dispatch_activate(later[j]); }
+    dispatch_source_t ds=dispatch_source_create(DISPATCH_SOURCE_TYPE_TIMER,0,0,q); __block _Atomic int fired=0; __block uint64_t ns=0;
+    dispatch_source_set_event_handler(ds,^{ uint64_t tn=clk(CLK[c]); if(tn<ns) fail("re-armed timer fired before its new start: clock/early_ns",c,(long)(ns-tn),0); atomic_fetch_add(&fired,1); });
+    dispatch_source_set_timer(ds,dispatch_time(base,120ll*1000000000ll),DISPATCH_TIME_FOREVER,0); dispatch_activate(ds);
+    usleep(100000);
+    ns=clk(CLK[c])+150000000ull; dispatch_source_set_timer(ds,dispatch_time(base,150000000ll),DISPATCH_TIME_FOREVER,0);
+    for(int w=0; w<100 && !atomic_load(&fired); w++) usleep(50000);
+    if(!atomic_load(&fired)) fail("a timer re-armed to an earlier start did not fire within 5 s of its new start (150 ms): clock/later-timers-pending",c,others,0);
+    dispatch_source_cancel(ds); for(int j=0;j<(others?4:0);j++) dispatch_source_cancel(later[j]); }
   struct after *A=calloc((size_t)na,sizeof *A);
   uint64_t horizon_ms = 1500;
   for(int i=0;i<na;i++){ struct after *a=&A[i]; a->clock=(int)(rnd()%3); int64_t d;
